@@ -103,6 +103,13 @@ func (env *specEnv) eval(e SExpr) TV {
 		}
 		sub := *env
 		sub.st = env.old
+		if env.fr != nil && len(env.fr.params) > 0 && env.fr.old == env.old {
+			// inside old() a parameter name means its value on entry, even where the body has reassigned it
+			sub.vars = copyVars(env.vars)
+			for k, v := range env.fr.params {
+				sub.vars[k] = v
+			}
+		}
 		return sub.eval(x.X)
 	case *SEntry:
 		if env.entry == nil {
@@ -695,6 +702,19 @@ func (env *specEnv) evalCall(x *SCall) TV {
 		argn(1)
 		a := env.eval(x.Args[0])
 		return TV{T: fmt.Sprintf("(and (> %s 0) (< %s %s))", refOf(a), refOf(a), env.st.alloc), Sort: "Bool"}
+	case "floor", "ceil": // math.Floor / math.Ceil as modelled by the handlers (uninterpreted, bounded by their argument)
+		argn(1)
+		a := env.eval(x.Args[0])
+		t := a.T
+		if a.Sort == "Int" {
+			t = app("to_real", t)
+		}
+		name := "rfloor"
+		if x.Fn == "ceil" {
+			name = "rceil"
+		}
+		u.global(fmt.Sprintf("(declare-fun %s (Real) Real)", name))
+		return TV{T: app(name, t), Sort: "Real"}
 	case "incase": // incase("text"): the point of evaluation lies in the switch arm whose case list is text
 		argn(1)
 		ts, ok := x.Args[0].(*SStr)
